@@ -134,6 +134,9 @@ type Property struct {
 	Cases func(tier string) int
 	// Run executes case idx; panics are converted to violations by the framework.
 	Run func(c *C)
+	// Pinned cases are re-run in every tier whatever VERIF_SEED is (directed
+	// regressions for recorded findings): the case body sees this seed and index.
+	Pinned []PinnedCase
 	// PanicClause names the clause a panic in Run violates ("" = harness bug → check broken).
 	PanicClause string
 	Rule        string
@@ -148,6 +151,11 @@ type Property struct {
 	WorkerEnv []string
 	// Timeout per shard in seconds (watchdog → inconclusive).
 	ShardTimeout func(tier string) int
+}
+
+type PinnedCase struct {
+	Seed uint64
+	Idx  int
 }
 
 var Registry = map[string]*Property{}
